@@ -422,6 +422,8 @@ pub const C_U8: u8 = 41;
 pub const C_CC: Cc = Cc(3);
 pub struct K;
 impl K { pub const V: u8 = 77; pub const W: Cc = Cc(9); }
+pub trait HasC { const V: u8; const W: Cc; const S: &'static str; }
+impl HasC for K { const V: u8 = 78; const W: Cc = Cc(11); const S: &'static str = "qself"; }
 pub fn mk8() -> u8 { 13 }
 pub fn mks() -> S8 { S8(1) }
 '''
@@ -432,6 +434,8 @@ C11_FIELD_CASES = [
     ("u8", "5", "5u8"), ("i16", "-5", "-5i16"), ("bool", "true", "true"), ("char", "'x'", "'x'"),
     ("S8", '"abc"', 'S8::from("abc")'), ("u8", "C_U8", "C_U8"), ("S8", "C_CC", "S8::from(C_CC)"), ("u8", "K::V", "K::V"), ("S8", "K::W", "S8::from(K::W)"),
     ("u8", "mk8()", "mk8()"), ("S8", "mks()", "mks()"), ("u8", "{ 1 + 2 }", "3u8"), ("u8", "_", "<u8 as Default>::default()"), ("Option<u8>", "Some(4)", "Some(4)"),
+    ("u8", "<K as HasC>::V", "<K as HasC>::V"), ("S8", "<K as HasC>::W", "S8::from(<K as HasC>::W)"), ("S8", "<K as HasC>::S", "S8::from(<K as HasC>::S)"), ("S8", "<K>::W", "S8::from(K::W)"),
+    ("S8", "crate::support::C_CC", "S8::from(C_CC)"), ("S8", "self::super::support::K::W", "S8::from(K::W)"),
     ("u8", "7, bound()", "7u8"), ("S8", '"xy", bound()', 'S8::from("xy")'), ("u8", "_, bound()", "0u8"), ("u8", "C_U8 + 1", "42u8"), ("i16", "(-3)", "-3i16"),
 ]
 
@@ -865,7 +869,7 @@ def c20_prog(name, rng, names=None):
         vs = [("X", kind, mkfields(kind))]
     alltys = " ".join(ty for v in vs for (_, ty, _) in v[2])
     import re as _re
-    words = _re.findall(r"'?\w+", alltys)
+    words = _re.findall(r"'?(?:r#)?\w+", alltys)
     gens = []
     if use_lt and LT_ in words:
         gens.append(LT_)
